@@ -30,7 +30,9 @@ Inductive hop :=
 | HRecv (t : transmission) (obs : recv_res)
 | HFinal
 | HTrans (plan : list item) (before after : files) (installed : list bool)
-         (missing : bool) (nproblems : nat).
+         (missing : bool) (nproblems : nat)
+| HTransF (plan : list item) (faults : list fault) (before after : files) (installed : list bool)
+          (missing : bool) (nproblems : nat).   (* faults: e.g. the copy across devices was cancelled *)
 
 Definition scase := (list (bytes * digest) * option nat * files * list hop)%type.
 
@@ -104,6 +106,18 @@ Fixpoint walk (x : session) (hs : list hop) : bool * bool :=
                     | _ => false
                     end) || b1,
            negb (check_C10 H before after plan missing np) || b2)
+      | HTransF plan faults before after installed missing np =>
+          let '(x', r) := sstep H mx x (STransition plan faults) in
+          let '(b1, b2) := walk x' t in
+          (negb (same_files (sroot x) before
+                 && same_files (sroot x') after
+                 && match r with
+                    | XTransition oks ms pbs =>
+                        bools_eqb oks installed && Bool.eqb ms missing
+                        && Nat.eqb (List.length pbs) np
+                    | _ => false
+                    end) || b1,
+           negb (check_C10 H before after plan missing np) || b2)
       end
   end.
 
@@ -117,7 +131,8 @@ Fixpoint nodup_paths (l : list path) : bool :=
 
 Definition wf_hop (h : hop) : bool :=
   match h with
-  | HTrans _ before after _ _ _ => nodup_paths (map fst before) && nodup_paths (map fst after)
+  | HTrans _ before after _ _ _ | HTransF _ _ before after _ _ _ =>
+      nodup_paths (map fst before) && nodup_paths (map fst after)
   | _ => true
   end.
 
